@@ -138,6 +138,30 @@ func build(race bool) (string, error) {
 	return bin, nil
 }
 
+// runtimeOnlyCrash reports a worker log that starts with a memory fault (SIGSEGV, SIGBUS) whose running goroutine has no
+// frame of github.com/paulmach/orb on its stack.
+func runtimeOnlyCrash(log string) bool {
+	if !strings.HasPrefix(log, "SIGSEGV") && !strings.HasPrefix(log, "SIGBUS") && !strings.Contains(head1(log), "unexpected signal") {
+		return false
+	}
+	i := strings.Index(log, "[running]:")
+	if i < 0 {
+		return false
+	}
+	stack := log[i:]
+	if j := strings.Index(stack, "\n\n"); j >= 0 {
+		stack = stack[:j]
+	}
+	return !strings.Contains(stack, "github.com/paulmach/orb")
+}
+
+func head1(s string) string {
+	if i := strings.IndexByte(s, '\n'); i >= 0 {
+		return s[:i]
+	}
+	return s
+}
+
 func cpuTicks(pid int) uint64 {
 	b, err := ioutil.ReadFile(fmt.Sprintf("/proc/%d/stat", pid))
 	if err != nil {
@@ -354,6 +378,13 @@ func run(id, tier string, seed uint64) int {
 					}
 				}
 				logTxt := head(base+".log", 6000)
+				if !outside && s.killedFor == "" && runtimeOnlyCrash(logTxt) {
+					// SIGSEGV / SIGBUS raised while the running goroutine was inside the Go runtime with no frame of the library
+					// anywhere on its stack (seen once: inside runtime.GOMAXPROCS of the race build, thorough run 8): a fault of
+					// the tool chain under the monitor, not an observation about the library
+					outside = true
+					inconclusive = append(inconclusive, fmt.Sprintf("shard %d: worker crashed inside the Go runtime, no library frame on the running goroutine's stack, in sub-check %s case %d", s.id, subName, p.idx))
+				}
 				if !outside {
 					extraViol = append(extraViol, h.Viol{Prop: id, Sub: subName, Idx: p.idx, Seed: seed, Tier: tier,
 						Msg: reason, Detail: map[string]interface{}{"log_head": logTxt, "input_note_hex": fmt.Sprintf("%x", p.note), "input_note": string(p.note)}})
